@@ -37,4 +37,10 @@ Prog_two    == [main |-> <<O("new", 0), O("sched", 1), O("cancel", 1), O("del", 
                             O("delpool", 0)>>,
                 p2   |-> <<O("up", 0), O("sched", 2), O("del", 2)>>,
                 clk  |-> <<O("tick", 0), O("tick", 0)>>]
+
+\* ---- quick tier: three small configurations as three initial states of one TLC run
+InitQuick ==
+  \/ InitWith(Cfg_false3, Prog_pool, {"w0"})
+  \/ InitWith(Cfg_now2, Prog_candel, {"w0"})     \* tasks on ImmediateInvoker: the worker stays idle
+  \/ InitWith(Cfg_det2, Prog_det, {"w0"})
 =============================================================================
